@@ -267,19 +267,24 @@ func (c *compiler) body(a *asm, f *frame, self string) {
 			return
 		case 'C':
 			addr, _ := c.ab.resolveName(x.addr)
+			inOff, inSize, gasOp := 0, 32, x.body.need()
+			if n := precN(x.addr); n != 0 {
+				inOff, inSize = emitPrecInput(a, n, x.body.end == "invalid")
+				gasOp = precGasOperand(x)
+			}
 			c.marker(a, markerPre, x.id, false)
 			a.push(uint64(x.id))
 			a.push(0)
 			a.op(opMSTORE)
-			a.push(0)  // retSize
-			a.push(0)  // retOffset
-			a.push(32) // inSize
-			a.push(0)  // inOffset
+			a.push(0) // retSize
+			a.push(0) // retOffset
+			a.push(uint64(inSize))
+			a.push(uint64(inOff))
 			if x.ck == "call" || x.ck == "callcode" {
 				a.push(uint64(x.value))
 			}
 			a.pushBytes(addr[:])
-			a.push(x.body.need())
+			a.push(gasOp)
 			switch x.ck {
 			case "call":
 				a.op(opCALL)
